@@ -408,13 +408,27 @@ def _worker(job):
             out["prods"] = prods
             # language of the modular grammar
             if inputs is not None:
-                try:
-                    with impl.time_limit(8):
-                        with impl.quiet():
-                            pm = GLRParser(g)
-                    out["mod"] = _parse_all(pm, inputs, lambda x: x, impl, parglare)
-                except BaseException as e:  # noqa
-                    out["mod_err"] = impl.exc_kind(e)
+                for attempt in (0, 1):
+                    try:
+                        with impl.time_limit(10 if attempt == 0 else 60):
+                            with impl.quiet():
+                                pm = GLRParser(g)
+                        out["mod"] = _parse_all(pm, inputs, lambda x: x, impl, parglare)
+                        out.pop("mod_err", None)
+                        break
+                    except BaseException as e:  # noqa
+                        out["mod_err"] = impl.exc_kind(e)
+                        import traceback as _tb
+                        out.setdefault("mod_err_tb", []).append(_tb.format_exc()[-1500:].replace(tmp, ""))
+                        if attempt == 0:
+                            # once more on a freshly loaded grammar (reported as mod_retry)
+                            out["mod_retry"] = out["mod_err"]
+                            for dp, _, fs in os.walk(tmp):      # an interrupted run leaves a truncated table cache
+                                for fn in fs:
+                                    if fn.endswith(".pgc"):
+                                        os.remove(os.path.join(dp, fn))
+                            with impl.time_limit(40):
+                                g = Grammar.from_file(os.path.join(tmp, D["files"][0]["path"]))
         if flat is not None and inputs is not None:
             try:
                 with impl.time_limit(8):
@@ -863,9 +877,14 @@ def judge(ctx, D, S, r, mv, stats):
         # because some user reached the overridden original (override finding)
         import re as _re
         quoted = _re.findall(r'"([^"]+)"', r["status"][2])
-        holders = [(f, lhs) for f, F in enumerate(D["files"]) for lhs, rhs in F["prods"] for e in rhs
-                   if e[0] == "ref" and any(q == e[1] or q.endswith("." + e[1]) for q in quoted)]
-        if (r["status"][1] in (5, 6) and holders and all(h in S["overrides"] for h in holders)
+        pth = dict(S["reg"])
+        holders = [(f, lhs) for f, F in enumerate(D["files"]) if f in pth
+                   for lhs, rhs in F["prods"] for e in rhs
+                   if e[0] == "ref" and any(full == q or full.endswith("." + q)
+                                            for full in [".".join(pth[f] + (e[1],))] for q in quoted
+                                            if "." in q or q == e[1])]
+        if (r["status"][1] in (5, 6) and holders and S["overrides"]
+                and all(h in S["overrides"] or h not in S["reachable"] for h in holders)
                 and mv["status"] == ["err", r["status"][1]] and KF_OVR in kf_names):
             stats["kf_override"] += 1
             ctx.known_finding(KF_OVR, "an overridden rule is still processed because a user reached the original: "
@@ -875,6 +894,9 @@ def judge(ctx, D, S, r, mv, stats):
                       key="rejects-valid-%s" % r["status"][1])
         return False
     probs, kf_o, kf_i = structural(D, S, r)
+    if mv != iv:
+        # a listed finding is an instance only if the baseline model shows the same grammar
+        probs, kf_o, kf_i = probs + kf_o + kf_i, [], []
     if kf_o and KF_OVR not in kf_names:
         probs += kf_o
     if kf_i and KF_INL not in kf_names:
@@ -902,11 +924,20 @@ def judge(ctx, D, S, r, mv, stats):
         stats.setdefault("flat_unbuildable_why", {})
         kk = r["flat_err"][:60]
         stats["flat_unbuildable_why"][kk] = stats["flat_unbuildable_why"].get(kk, 0) + 1
+    if "mod_retry" in r and "mod_err" not in r:
+        stats["mod_retry_recovered"] = stats.get("mod_retry_recovered", 0) + 1
+        ctx.notes.append("modular parser construction raised %s once and succeeded on retry: %s"
+                         % (r["mod_retry"], pub["files"]))
+    if "mod" in r and "flat" in r:
+        pass
+    elif "flat_err" in r:
+        pass
     elif "mod_err" in r:
         stats["mod_parser_err"][r["mod_err"]] = stats["mod_parser_err"].get(r["mod_err"], 0) + 1
         if r["mod_err"] not in ("Timeout",) and "flat" in r and not (kf_o or kf_i):
             ctx.violation("parser construction fails for the modular grammar (%s) but not for the flattened one"
-                          % r["mod_err"], rep, no_input=False, key="mod-parser-" + r["mod_err"])
+                          % r["mod_err"], dict(rep, tracebacks=r.get("mod_err_tb")), no_input=False,
+                          key="mod-parser-" + r["mod_err"])
             clean = False
     if probs:
         clean = False
